@@ -3,6 +3,7 @@ module verifharness
 go 1.23
 
 require (
+	github.com/Masterminds/semver v1.5.0
 	github.com/antlr4-go/antlr/v4 v4.13.1
 	github.com/nyaruka/gocommon v1.59.3
 	github.com/nyaruka/goflow v0.0.0
@@ -10,7 +11,6 @@ require (
 )
 
 require (
-	github.com/Masterminds/semver v1.5.0 // indirect
 	github.com/blevesearch/segment v0.9.1 // indirect
 	github.com/buger/jsonparser v1.1.1 // indirect
 	github.com/davecgh/go-spew v1.1.1 // indirect
